@@ -1,6 +1,7 @@
 """C07 — nothing in the document is dropped silently (DESIGN §C07)."""
 from __future__ import annotations
 
+import copy
 import inspect
 import itertools
 import re
@@ -216,13 +217,48 @@ def _media_sets():
             yield {"labels": [f"media{i}={m}" for i, m in enumerate(medias)], "payload": {"doc": doc, "key": f"media-set{k}"}}
 
 
+SHARED_PARAMS = {
+    "good": {"name": "q", "in": "query", "schema": {"type": "string"}},
+    "dangling-ref": {"$ref": "#/components/parameters/Nope"},
+    "bad-schema": {"name": "q", "in": "query", "schema": {"type": "array"}},
+    "no-schema": {"name": "q", "in": "query"},
+    "duplicate": [{"name": "q", "in": "query", "schema": {"type": "string"}}, {"name": "q", "in": "query", "schema": {"type": "integer"}}],
+    "optional-path": {"name": "pp", "in": "path", "required": False, "schema": {"type": "string"}},
+}
+
+
+def _pathitem_cases():
+    """A path item with shared (possibly broken) parameters and several methods, each inheriting or re-declaring them:
+    every operation is generated or named, whatever happens to its siblings."""
+    methods = ("get", "put", "post", "delete")
+    for sname, shared in SHARED_PARAMS.items():
+        for modes in itertools.product(("inherits", "overrides", "absent"), repeat=len(methods)):
+            if modes.count("absent") > 2:
+                continue
+            path = "/shared/{pp}" if sname == "optional-path" else "/shared"
+            item = {"parameters": copy.deepcopy(shared if isinstance(shared, list) else [shared])}
+            for m, mode in zip(methods, modes):
+                if mode == "absent":
+                    continue
+                op = {"operationId": f"{m}Shared", "responses": {"200": {"description": "ok"}}}
+                if mode == "overrides":      # a valid operation-level parameter with the same name and location
+                    op["parameters"] = [{"name": "pp", "in": "path", "required": True, "schema": {"type": "string"}}] if sname == "optional-path" else \
+                        [{"name": "q", "in": "query", "schema": {"type": "boolean"}}]
+                item[m] = op
+            yield {"labels": [f"shared-param={sname}", "ops=" + ",".join(f"{m}:{md}" for m, md in zip(methods, modes) if md != "absent")],
+                   "payload": {"doc": gen.base_doc(None, paths={path: item}), "key": f"path-item/{sname}"}}
+
+
 def cases(tier):
     yield from _op_pairs()
     yield from _schema_pairs()
     yield from _media_sets()
+    yield from _pathitem_cases()
     bound = 2 if tier == "quick" else 3
     for labels, payload, _d in explore(_build, bound=bound, limit=6000 if tier == "quick" else 120000):
         yield {"labels": labels, "payload": payload}
+        # the same document with every operation placed under all of its tags (diagnostics are collected per tag)
+        yield {"labels": labels + ["generate_all_tags"], "payload": dict(payload, options={"generate_all_tags": True})}
     cases.info = {"bounds": {"builder_deviations": bound}, "cap_hit": explore.stats["cap_hit"]}
 
 
@@ -265,7 +301,7 @@ def _tmpl_regex(path):
 
 def run_case(p):
     doc = p["doc"]
-    res = gen.generate(doc)
+    res = gen.generate(doc, **p.get("options", {}))
     if res.crash:
         return {"skipped_crash": True, "outcome": f"crash:{res.crash['type']}@{res.crash['where']}", "nontrivial": False}
     if res.rejected:
